@@ -1139,7 +1139,17 @@ def subsets(tier, seed):
     samples = []
     hist_names = [h for h in HISTORIES if h != "none" and (h != "bounds" or _READY["jit"])]
     done = 0
-    limit = 31 if tier == "quick" else 530          # seconds since the start of the function (includes ~17 s of JIT compilation)
+    # The safety net must not depend on whether numba's on-disk cache is warm (a patched checkout at another path compiles
+    # everything again, ~20 s): compile the two uncached kernels on a tiny grid first, then start the clock for the mesh loop.
+    try:
+        _w = grid_of(mg.small_meshes()[0])
+        _w.edge_face_connectivity
+        if _READY["jit"]:
+            _w.bounds
+    except Exception:  # noqa: BLE001 - warm-up only
+        pass
+    t0 = time.time()
+    limit = 22 if tier == "quick" else 500          # seconds of mesh-loop time (compilation excluded)
     for mi, m in enumerate(meshes):
         if time.time() - t0 > limit:
             break                       # safety net only; the mesh counts are chosen to stay below it
